@@ -98,6 +98,10 @@ pub enum Fault {
     CharReplace { pos: usize, ch: u8 },
     NumReplace { which: u8, value: u64 },
     WrongPassword,
+    /// n copies of a multi-byte UTF-8 character inserted at a byte position (snapped to a char boundary)
+    UnicodeInsert { pos: usize, n: usize, ch: u8 },
+    /// one ASCII character from the grammar's alphabet (or a space / letter) *inserted*
+    CharInsert { pos: usize, ch: u8 },
     /// the verifier is handed a corrupted / special public key
     /// (0 zeros, 1 0xff.., 2 identity, 3 y=-1 (order 2), 4 order-4 point, 5 non-canonical y=p, 6 random, 7 one flipped bit)
     PublicKey { kind: u8, bit: usize },
@@ -119,6 +123,8 @@ impl Fault {
             Fault::CharReplace { .. } => "char.replace",
             Fault::NumReplace { .. } => "num.replace",
             Fault::WrongPassword => "wrong.password",
+            Fault::UnicodeInsert { .. } => "unicode.insert",
+            Fault::CharInsert { .. } => "char.insert",
             Fault::PublicKey { .. } => "public.key",
         }
     }
@@ -352,6 +358,30 @@ impl VerifierWorld {
                 }
             }
             Fault::WrongPassword => wrong_pw = true,
+            Fault::UnicodeInsert { pos, n, ch } => {
+                if !k.is_string() {
+                    fired = false;
+                } else {
+                    let mut st = String::from_utf8_lossy(&w).to_string();
+                    let mut p = pos % (st.len() + 1);
+                    while !st.is_char_boundary(p) {
+                        p -= 1;
+                    }
+                    let c = ['é', '€', '😀', 'ß'][(*ch % 4) as usize];
+                    let ins: String = std::iter::repeat(c).take(1 + n % 12).collect();
+                    st.insert_str(p, &ins);
+                    w = st.into_bytes();
+                }
+            }
+            Fault::CharInsert { pos, ch } => {
+                if !k.is_string() {
+                    fired = false;
+                } else {
+                    const AB: &[u8] = b" ,=$xXmtpv019+-";
+                    let p = pos % (w.len() + 1);
+                    w.insert(p, AB[(*ch as usize) % AB.len()]);
+                }
+            }
             Fault::PublicKey { .. } => fired = k.overhead() == 64,
             Fault::SegDrop { .. } | Fault::SegDup { .. } | Fault::SegSwap { .. } | Fault::SegEmpty { .. } | Fault::CharReplace { .. } | Fault::NumReplace { .. } => {
                 if !k.is_string() {
@@ -581,7 +611,14 @@ impl World for VerifierWorld {
                         8 => Fault::SegDup { i: rng.usize_below(6) },
                         9 => Fault::SegSwap { i: rng.usize_below(6), j: rng.usize_below(6) },
                         10 => Fault::SegEmpty { i: rng.usize_below(6) },
-                        11..=12 => Fault::CharReplace { pos: rng.usize_below(wire_guess), ch: rng.below(26) as u8 },
+                        11 => Fault::CharReplace { pos: rng.usize_below(wire_guess), ch: rng.below(26) as u8 },
+                        12 => {
+                            if rng.chance(1, 2) {
+                                Fault::CharInsert { pos: rng.usize_below(60), ch: rng.below(15) as u8 }
+                            } else {
+                                Fault::UnicodeInsert { pos: rng.usize_below(40), n: rng.usize_below(12), ch: rng.below(4) as u8 }
+                            }
+                        }
                         13..=14 => Fault::NumReplace {
                             which: rng.below(4) as u8,
                             value: *rng.pick(&[0u64, 1, 2, 3, 4, 7, 8, 9, 15, 16, 19, 0x13, 1023, 1024, 1025, 65536, 0x7fff_ffff, 0xffff_ffff, 0x1_0000_0000, u64::MAX]),
